@@ -278,11 +278,11 @@ Lemma go_decode_size_bounds s n : go_decode_size s = Some n -> (1 <= n <= 4 /\ n
 Proof.
   unfold go_decode_size. destruct s as [|b0 t]; [discriminate|].
   destruct (b0 <? 128)%N; [intros H; inversion H; cbn; lia|].
-  destruct (inr 194 223 b0).
-  { destruct t as [|b1 t]; [discriminate|]. destruct (inr 128 191 b1); [|discriminate]. intros H; inversion H; cbn; lia. }
-  destruct (inr 224 239 b0).
+  destruct (in_rng 194 223 b0).
+  { destruct t as [|b1 t]; [discriminate|]. destruct (in_rng 128 191 b1); [|discriminate]. intros H; inversion H; cbn; lia. }
+  destruct (in_rng 224 239 b0).
   { destruct t as [|b1 [|b2 t]]; try discriminate. destruct (_ && _); [|discriminate]. intros H; inversion H; cbn; lia. }
-  destruct (inr 240 244 b0); [|discriminate].
+  destruct (in_rng 240 244 b0); [|discriminate].
   destruct t as [|b1 [|b2 [|b3 t]]]; try discriminate. destruct (_ && _); [|discriminate]. intros H; inversion H; cbn; lia.
 Qed.
 
@@ -404,6 +404,25 @@ Proof.
     + pose proof (Hmk m ltac:(lia)). lia.
 Qed.
 
+Lemma index_ok_true k bs : lenZ bs = Z.of_nat k -> index_ok k bs = true.
+Proof. unfold index_ok, lenZ. intros H. apply Nat.leb_le. lia. Qed.
+
+Lemma acc64_range pb : - two63Z <= acc64 pb < two63Z.
+Proof.
+  unfold acc64. rewrite <- fold_left_rev_right. induction (rev pb) as [|x t IH]; cbn [fold_right].
+  - unfold two63Z; lia.
+  - apply wrap64_range.
+Qed.
+
+Lemma wrap64_small z : 0 <= z < two63Z -> wrap64 z = z.
+Proof. intros H. apply wrap64_id. unfold two63Z in *. lia. Qed.
+
+Lemma quote_length t : lenZ (quote t) = lenZ t + 2.
+Proof. unfold quote, lenZ. cbn [length]. rewrite app_length. cbn [length]. lia. Qed.
+
+Lemma lenZ_1 (x : N) : lenZ [x] = 1.
+Proof. reflexivity. Qed.
+
 (* ---- wp of every decoder function ---- *)
 Section DecoderWP.
 Variable chk : bool.
@@ -430,15 +449,7 @@ Proof.
     + intros H0 HL bs Hb. apply HQ; auto; try lia. ck. unfold Cc. lia.
 Qed.
 
-Lemma index_ok_true k bs : lenZ bs = Z.of_nat k -> index_ok k bs = true.
-Proof. unfold index_ok, lenZ. intros H. apply Nat.leb_le. lia. Qed.
 
-Lemma acc64_range pb : - two63Z <= acc64 pb < two63Z.
-Proof.
-  unfold acc64. rewrite <- fold_left_rev_right. induction (rev pb) as [|x t IH]; cbn [fold_right].
-  - unfold two63Z; lia.
-  - apply wrap64_range.
-Qed.
 
 Lemma wp_decodeIntAT minor c L (Q : _ -> Z -> Z -> Prop) :
   (chk = true -> -4000 <= c) ->
@@ -514,8 +525,6 @@ Proof.
   split; [ck; unfold Dd, Cc, len, lenZ in *; lia|]. apply HQ; [lia|]. ck. unfold Cc, len, lenZ in *. lia.
 Qed.
 
-Lemma wrap64_small z : 0 <= z < two63Z -> wrap64 z = z.
-Proof. intros H. apply wrap64_id. unfold two63Z in *. lia. Qed.
 
 Lemma wp_decodeStringToDataUrl mime c L (Q : _ -> Z -> Z -> Prop) :
   L < Lmax -> lenZ mime <= 16 ->
@@ -549,8 +558,6 @@ Proof.
   unfold lenZ in *. rewrite !app_length. cbn [length lit_data lit_b64]. unfold Cc in *. lia.
 Qed.
 
-Lemma quote_length t : lenZ (quote t) = lenZ t + 2.
-Proof. unfold quote, lenZ. cbn [length]. rewrite app_length. cbn [length]. lia. Qed.
 
 Lemma wp_ask {A} (o : option A) c L (Q : A -> Z -> Z -> Prop) : (forall t, o = Some t -> Q t c L) -> wpc (ask o) c L Q.
 Proof. intros H. destruct o; cbn [ask wp]; auto. Qed.
@@ -678,8 +685,6 @@ Definition loop_spec (loop : nat -> bool -> Z -> Z -> prog unit) (f : nat) : Pro
     (forall c' L', L' <= L -> (chk = true -> c - 2 <= c') -> Q tt c' L') ->
     wpc (loop f indef i ln) c L Q.
 
-Lemma lenZ_1 (x : N) : lenZ [x] = 1.
-Proof. reflexivity. Qed.
 
 Lemma decoder_wp f : one_spec f /\ loop_spec (array_loop Orc) f /\ loop_spec (map_loop Orc) f.
 Proof.
@@ -843,4 +848,255 @@ Proof.
                 Hm ltac:(pose proof (fuel_for_ok bs); lia) ltac:(discriminate) ltac:(intros; exact I)) as W.
   pose proof (wp_sound false _ _ _ _ (mkst bs [] 0%N) W ltac:(cbn; lia) ltac:(discriminate)) as S.
   destruct (run _ _); cbn [snd]; auto.
+Qed.
+
+(* ================================================================== *)
+(* Part 3: fuel monotonicity, prefix stability                          *)
+(* ================================================================== *)
+(* p' behaves like p wherever p does not run out of fuel *)
+Definition sub {A} (p p' : prog A) : Prop := forall s, run p s <> OOF -> run p' s = run p s.
+
+Lemma sub_refl {A} (p : prog A) : sub p p.
+Proof. intros s _. reflexivity. Qed.
+Lemma sub_trans {A} (p q r : prog A) : sub p q -> sub q r -> sub p r.
+Proof. intros H1 H2 s H. rewrite <- (H1 s H). apply H2. rewrite (H1 s H). exact H. Qed.
+Lemma sub_oof {A} (p : prog A) : sub POOF p.
+Proof. intros s H. cbn in H. congruence. Qed.
+Lemma sub_readbyte {A} (k k' : N -> prog A) : (forall b, sub (k b) (k' b)) -> sub (PReadByte k) (PReadByte k').
+Proof. intros H s. cbn [run]. destruct (rest s); auto. apply H. Qed.
+Lemma sub_peekrb {A} (k k' : N -> prog A) : (forall b, sub (k b) (k' b)) -> sub (PPeekRB k) (PPeekRB k').
+Proof. intros H s. cbn [run]. destruct (rest s); auto. apply H. Qed.
+Lemma sub_peek {A} (k k' : N -> prog A) : (forall b, sub (k b) (k' b)) -> sub (PPeek k) (PPeek k').
+Proof. intros H s. cbn [run]. destruct (rest s); auto. apply H. Qed.
+Lemma sub_write {A} bs (k k' : prog A) : sub k k' -> sub (PWrite bs k) (PWrite bs k').
+Proof. intros H s. cbn [run]. apply H. Qed.
+Lemma sub_alloc {A} n (k k' : prog A) : sub k k' -> sub (PAlloc n k) (PAlloc n k').
+Proof. intros H s. cbn [run]. apply H. Qed.
+Lemma sub_bind {A B} (p p' : prog A) (k k' : A -> prog B) :
+  sub p p' -> (forall a, sub (k a) (k' a)) -> sub (pbind p k) (pbind p' k').
+Proof.
+  intros Hp Hk s. rewrite !run_pbind. intros H.
+  assert (Hn : run p s <> OOF) by (intros E; rewrite E in H; congruence).
+  rewrite (Hp s Hn). destruct (run p s) as [a s'|e s'|e s'|]; auto. apply Hk. exact H.
+Qed.
+
+Lemma fuel_mono_step Orc f :
+  sub (cbor2JsonOneObject Orc f) (cbor2JsonOneObject Orc (S f)) /\
+  (forall u i ln, sub (array_loop Orc f u i ln) (array_loop Orc (S f) u i ln)) /\
+  (forall u i ln, sub (map_loop Orc f u i ln) (map_loop Orc (S f) u i ln)).
+Proof.
+  induction f as [|f (IH1 & IH2 & IH3)].
+  { repeat split; intros; apply sub_oof. }
+  repeat split.
+  - cbn [cbor2JsonOneObject]. apply sub_peek. intros pb.
+    destruct (major_of pb =? majorTypeArray)%N.
+    { apply sub_write. apply sub_bind; [apply sub_refl|]. intros b. destruct (negb _); [apply sub_refl|].
+      apply sub_bind; [apply sub_refl|]. intros h. apply IH2. }
+    destruct (major_of pb =? majorTypeMap)%N.
+    { apply sub_bind; [apply sub_refl|]. intros b. destruct (negb _); [apply sub_refl|].
+      apply sub_bind; [apply sub_refl|]. intros h. apply sub_write. apply IH3. }
+    apply sub_refl.
+  - intros u i ln. cbn [array_loop]. cbv zeta.
+    assert (Body : sub
+       (_ <- cbor2JsonOneObject Orc f;;
+        (if u then PPeek (fun pb => if is_break_byte pb then PReadByte (fun _ => PWrite [93%N] (PRet tt))
+                                    else PWrite [44%N] (array_loop Orc f u (i + 1) ln))
+         else if i + 1 <? ln then PWrite [44%N] (array_loop Orc f u (i + 1) ln) else array_loop Orc f u (i + 1) ln))
+       (_ <- cbor2JsonOneObject Orc (S f);;
+        (if u then PPeek (fun pb => if is_break_byte pb then PReadByte (fun _ => PWrite [93%N] (PRet tt))
+                                    else PWrite [44%N] (array_loop Orc (S f) u (i + 1) ln))
+         else if i + 1 <? ln then PWrite [44%N] (array_loop Orc (S f) u (i + 1) ln) else array_loop Orc (S f) u (i + 1) ln))).
+    { apply sub_bind; [apply IH1|]. intros _. destruct u.
+      - apply sub_peek. intros pb. destruct (is_break_byte pb); [apply sub_refl|]. apply sub_write. apply IH2.
+      - destruct (i + 1 <? ln); [apply sub_write|]; apply IH2. }
+    destruct (u || (i <? ln)); [|apply sub_refl]. destruct u; [|exact Body].
+    apply sub_peek. intros pb. destruct (is_break_byte pb); [apply sub_refl|exact Body].
+  - intros u i ln. cbn [map_loop]. cbv zeta.
+    assert (Body : sub
+       (_ <- cbor2JsonOneObject Orc f;;
+        (if i mod 2 =? 0 then PWrite [58%N] (map_loop Orc f u (i + 1) ln)
+         else if u then PPeek (fun pb => if is_break_byte pb then PReadByte (fun _ => PWrite [125%N] (PRet tt))
+                                    else PWrite [44%N] (map_loop Orc f u (i + 1) ln))
+         else if i + 1 <? ln then PWrite [44%N] (map_loop Orc f u (i + 1) ln) else map_loop Orc f u (i + 1) ln))
+       (_ <- cbor2JsonOneObject Orc (S f);;
+        (if i mod 2 =? 0 then PWrite [58%N] (map_loop Orc (S f) u (i + 1) ln)
+         else if u then PPeek (fun pb => if is_break_byte pb then PReadByte (fun _ => PWrite [125%N] (PRet tt))
+                                    else PWrite [44%N] (map_loop Orc (S f) u (i + 1) ln))
+         else if i + 1 <? ln then PWrite [44%N] (map_loop Orc (S f) u (i + 1) ln) else map_loop Orc (S f) u (i + 1) ln))).
+    { apply sub_bind; [apply IH1|]. intros _. destruct (i mod 2 =? 0); [apply sub_write; apply IH3|]. destruct u.
+      - apply sub_peek. intros pb. destruct (is_break_byte pb); [apply sub_refl|]. apply sub_write. apply IH3.
+      - destruct (i + 1 <? ln); [apply sub_write|]; apply IH3. }
+    destruct (u || (i <? ln)); [|apply sub_refl]. destruct u; [|exact Body].
+    apply sub_peek. intros pb. destruct (is_break_byte pb); [apply sub_refl|exact Body].
+Qed.
+
+Lemma fuel_mono Orc f f' : (f <= f')%nat -> sub (cbor2JsonOneObject Orc f) (cbor2JsonOneObject Orc f').
+Proof.
+  induction 1 as [|f' _ IH]; [apply sub_refl|]. eapply sub_trans; [exact IH|]. apply fuel_mono_step.
+Qed.
+
+(* the output only grows *)
+Lemma run_out_mono {A} (p : prog A) : forall s,
+  match run p s with
+  | Ret _ s' | Fail _ s' | Crash _ s' => exists part, outr s' = part ++ outr s
+  | OOF => True
+  end.
+Proof.
+  induction p as [x|k|k| |k IH|k IH|k IH|n k IH|n k IH|bs k IH]; intros s; cbn [run]; try (exists []; reflexivity); auto.
+  - destruct s as [r o a]; cbn [rest outr alloc]. destruct r; [exists []; reflexivity|]. apply (IH n (mkst r o a)).
+  - destruct s as [r o a]; cbn [rest outr alloc]. destruct r; [exists []; reflexivity|]. apply (IH n (mkst (n :: r) o a)).
+  - destruct s as [r o a]; cbn [rest outr alloc]. destruct r; [exists []; reflexivity|]. apply (IH n (mkst (n :: r) o a)).
+  - destruct s as [r o a]; cbn [rest outr alloc]. destruct (n <=? 0); [apply (IH [] (mkst r o a))|].
+    destruct (split_at r (Z.to_N n) []) as [[bs r']|]; [apply (IH bs (mkst r' o (a + Z.to_N n)%N))|exists []; reflexivity].
+  - destruct s as [r o a]; cbn [rest outr alloc]. apply (IH (mkst r o (a + n)%N)).
+  - destruct s as [r o a]; cbn [rest outr alloc].
+    specialize (IH (mkst r (rev_append bs o) (a + N.of_nat (length bs))%N)). cbn [outr] in IH.
+    destruct (run k _) as [x s'|e s'|e s'|]; auto; destruct IH as (part & E); exists (part ++ rev bs);
+      rewrite E, rev_append_rev, app_assoc; reflexivity.
+Qed.
+
+(* [e] is one decodable top-level item with JSON text [j] *)
+Definition decodes (Orc : oracle) (e j : list N) : Prop :=
+  e <> [] /\ exists f al, run (cbor2JsonOneObject Orc f) (mkst e [] 0%N) = Ret tt (mkst [] (rev j) al).
+
+Lemma one_total Orc f s : lenZ (rest s) < Lmax -> 2 * lenZ (rest s) + 1 <= Z.of_nat f ->
+  match run (cbor2JsonOneObject Orc f) s with Crash _ _ | OOF => False | _ => True end.
+Proof.
+  intros HLm Hf. pose proof (lenZ_nonneg (rest s)).
+  pose proof (proj1 (decoder_wp false Orc ltac:(discriminate) f) 0 (lenZ (rest s)) (fun _ _ _ => True)
+                HLm ltac:(lia) ltac:(discriminate) ltac:(intros; exact I)) as W.
+  pose proof (wp_sound false _ _ _ _ s W ltac:(lia) ltac:(discriminate)) as S.
+  destruct (run _ _); auto.
+Qed.
+
+Lemma one_decodes Orc e j : decodes Orc e j -> forall f tail o a,
+  lenZ (e ++ tail) < Lmax -> 2 * lenZ (e ++ tail) + 1 <= Z.of_nat f ->
+  exists a', run (cbor2JsonOneObject Orc f) (mkst (e ++ tail) o a) = Ret tt (mkst tail (rev j ++ o) a').
+Proof.
+  intros (Hne & f0 & al & R) f tail o a HLm Hf.
+  pose proof (run_ext (cbor2JsonOneObject Orc f0) (mkst e [] 0%N) tail) as E. rewrite R in E. cbn in E.
+  pose proof (run_shift (cbor2JsonOneObject Orc f0) (mkst (e ++ tail) [] 0%N) o a) as Sh.
+  unfold ext_st in E. cbn [rest outr alloc] in E. rewrite E in Sh.
+  unfold shift_st, shift_res in Sh. cbn [rest outr alloc app N.add] in Sh.
+  (* the same with any sufficient fuel *)
+  set (s := mkst (e ++ tail) o a) in *.
+  pose proof (one_total Orc f s HLm Hf) as T.
+  set (fm := Nat.max f f0).
+  assert (M0 : run (cbor2JsonOneObject Orc fm) s = run (cbor2JsonOneObject Orc f0) s).
+  { apply (fuel_mono Orc f0 fm); [unfold fm; lia|]. rewrite Sh. discriminate. }
+  assert (M1 : run (cbor2JsonOneObject Orc fm) s = run (cbor2JsonOneObject Orc f) s).
+  { apply (fuel_mono Orc f fm); [unfold fm; lia|]. destruct (run (cbor2JsonOneObject Orc f) s); try contradiction; discriminate. }
+  rewrite <- M1, M0, Sh. eexists. reflexivity.
+Qed.
+
+Definition lines (js : list (list N)) : list N := concat (map (fun j => j ++ [10%N]) js).
+
+Lemma decodes_nonempty Orc e j : decodes Orc e j -> (1 <= lenZ e).
+Proof. intros (H & _). destruct e; [congruence|]. rewrite lenZ_cons. pose proof (lenZ_nonneg e). lia. Qed.
+
+(* whole events are decoded one after the other, whatever follows *)
+Lemma many_whole Orc es js : Forall2 (decodes Orc) es js -> forall tail f o a,
+  lenZ (concat es ++ tail) < Lmax -> 2 * lenZ (concat es ++ tail) + 2 <= Z.of_nat f ->
+  exists a', many Orc f (mkst (concat es ++ tail) o a) =
+             many Orc (f - length es) (mkst tail (rev (lines js) ++ o) a') /\
+             2 * lenZ tail + 2 <= Z.of_nat (f - length es).
+Proof.
+  induction 1 as [|e j es js D _ IH]; intros tail f o a HLm Hf.
+  - cbn [concat app length lines map rev]. rewrite Nat.sub_0_r. exists a. cbn in Hf. split; auto.
+  - cbn [concat] in *. rewrite <- app_assoc in *.
+    pose proof (decodes_nonempty _ _ _ D) as He. rewrite lenZ_app in HLm, Hf.
+    pose proof (lenZ_nonneg (concat es ++ tail)).
+    destruct f as [|f]; [lia|]. cbn [many rest].
+    destruct (e ++ concat es ++ tail) as [|b t] eqn:Eb.
+    { destruct D as (Hne & _). destruct e; [congruence|discriminate]. }
+    rewrite <- Eb.
+    destruct (one_decodes Orc e j D f (concat es ++ tail) o a ltac:(rewrite lenZ_app; lia) ltac:(rewrite lenZ_app; lia)) as (a1 & R).
+    rewrite R. unfold write_nl. cbn [rest outr alloc].
+    destruct (IH tail f (10%N :: rev j ++ o) (a1 + 1)%N ltac:(lia) ltac:(lia)) as (a2 & R2 & F2).
+    exists a2. rewrite R2. cbn [length]. replace (S f - S (length es))%nat with (f - length es)%nat by lia.
+    split; auto. f_equal. f_equal. unfold lines. cbn [map concat]. rewrite !rev_app_distr. cbn [rev app].
+    rewrite <- !app_assoc. reflexivity.
+Qed.
+
+(* a stream of whole events decodes to one line per event, no error *)
+Theorem stream_decodes Orc es js : Forall2 (decodes Orc) es js -> fits_memory (concat es) ->
+  exists a, cbor2json Orc (concat es) = (lines js, FOk, a).
+Proof.
+  intros F Hm. unfold cbor2json.
+  destruct (many_whole Orc es js F [] (fuel_for (concat es)) [] 0%N) as (a' & R & Hf).
+  { rewrite app_nil_r. exact Hm. } { rewrite app_nil_r. apply fuel_for_ok. }
+  rewrite app_nil_r in R. rewrite R.
+  destruct (fuel_for (concat es) - length es)%nat as [|g] eqn:Eg; [cbn in Hf; lia|].
+  cbn [many rest outr alloc]. rewrite app_nil_r, rev'_rev, rev_involutive. eexists; reflexivity.
+Qed.
+
+(* a torn event: a proper prefix of a decodable item is an end-of-input error *)
+Lemma torn_event Orc e j p q : decodes Orc e j -> e = p ++ q -> p <> [] -> q <> [] ->
+  forall f o a, lenZ e < Lmax -> 2 * lenZ e + 1 <= Z.of_nat f ->
+  exists k s', run (cbor2JsonOneObject Orc f) (mkst p o a) = Fail k s' /\ is_eof k = true /\
+               exists part, outr s' = part ++ o.
+Proof.
+  intros D Ee Hp Hq f o a HLm Hf. subst e. rewrite lenZ_app in *. pose proof (lenZ_nonneg q).
+  destruct (one_decodes Orc (p ++ q) j D f [] o a) as (a1 & R).
+  { rewrite app_nil_r, lenZ_app. lia. } { rewrite app_nil_r, lenZ_app. lia. }
+  rewrite app_nil_r in R.
+  pose proof (run_ext (cbor2JsonOneObject Orc f) (mkst p o a) q) as E. unfold ext_st in E. cbn [rest outr alloc] in E.
+  rewrite R in E.
+  pose proof (run_out_mono (cbor2JsonOneObject Orc f) (mkst p o a)) as Mo. cbn [outr] in Mo.
+  destruct (run (cbor2JsonOneObject Orc f) (mkst p o a)) as [x s'|k s'|k s'|]; cbn [ext_res] in E.
+  - exfalso. inversion E as [[E1 E2]]. destruct (rest s'); [destruct q; [congruence|discriminate]|discriminate].
+  - destruct E as [E|E]; [|discriminate]. exists k, s'. repeat split; auto.
+  - discriminate.
+  - discriminate.
+Qed.
+
+(* a cut inside an event: the whole events before it are decoded as in the
+   full stream, then an end-of-input error is reported *)
+Theorem stream_torn Orc es js e j p q : Forall2 (decodes Orc) es js -> decodes Orc e j ->
+  e = p ++ q -> p <> [] -> q <> [] -> fits_memory (concat es ++ e) ->
+  exists part k a, cbor2json Orc (concat es ++ p) = (lines js ++ part, FErr k, a) /\ is_eof k = true.
+Proof.
+  intros F D Ee Hp Hq Hm. unfold cbor2json, fits_memory in *.
+  assert (Hlen : lenZ (concat es ++ p) <= lenZ (concat es ++ e)).
+  { subst e. rewrite !lenZ_app. pose proof (lenZ_nonneg q). lia. }
+  destruct (many_whole Orc es js F p (fuel_for (concat es ++ p)) [] 0%N) as (a' & R & Hf).
+  { unfold Lmax. lia. } { apply fuel_for_ok. }
+  rewrite R. rewrite app_nil_r.
+  destruct (fuel_for (concat es ++ p) - length es)%nat as [|g] eqn:Eg; [pose proof (lenZ_nonneg p); lia|].
+  cbn [many rest]. destruct p as [|b t] eqn:Ep; [congruence|]. rewrite <- Ep in *.
+  assert (HLe : lenZ e < Lmax).
+  { rewrite lenZ_app in Hm. pose proof (lenZ_nonneg (concat es)). unfold Lmax. lia. }
+  (* the torn event with fuel g: first with enough fuel for e, then transported *)
+  set (G := Nat.max g (2 * length e + 1)).
+  destruct (torn_event Orc e j p q D Ee ltac:(subst p; discriminate) Hq G (rev (lines js)) a' HLe
+              ltac:(unfold G, lenZ; lia)) as (k & s' & RG & Hk & part & Ho).
+  assert (Tg : match run (cbor2JsonOneObject Orc g) (mkst p (rev (lines js)) a') with Crash _ _ | OOF => False | _ => True end).
+  { apply one_total; cbn [rest]; [subst e; rewrite lenZ_app in HLe; pose proof (lenZ_nonneg q); lia|lia]. }
+  assert (Mg : run (cbor2JsonOneObject Orc G) (mkst p (rev (lines js)) a') = run (cbor2JsonOneObject Orc g) (mkst p (rev (lines js)) a')).
+  { apply (fuel_mono Orc g G); [unfold G; lia|]. destruct (run (cbor2JsonOneObject Orc g) _); try contradiction; discriminate. }
+  rewrite <- Mg, RG. exists (rev part), k, (alloc s'). split; auto.
+  rewrite rev'_rev, Ho, rev_app_distr, rev_involutive. reflexivity.
+Qed.
+
+(* every cut point of a stream is either an event boundary or inside an event *)
+Lemma cut_cases (es : list (list N)) : (forall e, In e es -> e <> []) -> forall k, (k <= length (concat es))%nat ->
+  (exists n, firstn k (concat es) = concat (firstn n es)) \/
+  (exists es1 e es2 p q, es = es1 ++ e :: es2 /\ e = p ++ q /\ p <> [] /\ q <> [] /\ firstn k (concat es) = concat es1 ++ p).
+Proof.
+  induction es as [|e es IH]; intros Hne k Hk.
+  - left. exists 0%nat. cbn. destruct k; reflexivity.
+  - cbn [concat] in *. rewrite app_length in Hk.
+    destruct (Nat.eq_dec k 0) as [->|Hk0]; [left; exists 0%nat; reflexivity|].
+    destruct (Nat.lt_ge_cases k (length e)) as [Hlt|Hge].
+    + right. exists [], e, es, (firstn k e), (skipn k e). repeat split.
+      * symmetry. apply firstn_skipn.
+      * intros E. apply (f_equal (@length N)) in E. rewrite firstn_length in E. cbn in E. lia.
+      * intros E. apply (f_equal (@length N)) in E. rewrite skipn_length in E. cbn in E. lia.
+      * rewrite firstn_app. replace (k - length e)%nat with 0%nat by lia. rewrite firstn_O, app_nil_r. reflexivity.
+    + rewrite firstn_app. rewrite (firstn_all2 e) by lia.
+      destruct (IH ltac:(intros x Hx; apply Hne; right; auto) (k - length e)%nat ltac:(lia)) as [(n & E)|(es1 & e1 & es2 & p & q & E1 & E2 & E3 & E4 & E5)].
+      * left. exists (S n). cbn [firstn concat]. rewrite E. reflexivity.
+      * right. exists (e :: es1), e1, es2, p, q. repeat split; auto.
+        -- cbn. rewrite E1. reflexivity.
+        -- cbn [concat]. rewrite E5, app_assoc. reflexivity.
 Qed.
